@@ -8,15 +8,39 @@ use crate::util::*;
 use rpm::Package;
 use serde_json::{Value, json};
 
+/// a `Signing` implementation that refuses (a hardware token that is not plugged in, a declined pin entry)
+#[derive(Debug)]
+struct RefusingSigner;
+impl rpm::signature::Signing for RefusingSigner {
+    type Signature = Vec<u8>;
+    fn sign(&self, _data: impl std::io::Read, _t: rpm::Timestamp) -> Result<Vec<u8>, rpm::Error> {
+        Err(std::io::Error::new(std::io::ErrorKind::Other, "the signing device refused").into())
+    }
+    fn algorithm(&self) -> rpm::signature::AlgorithmType {
+        rpm::signature::AlgorithmType::RSA
+    }
+}
+
+/// is the header SHA-256 recorded in the signature header, and is it the digest of the header as written ?
+fn header_digest_true(p: &Package) -> bool {
+    use sha2::Digest;
+    let b = written(p);
+    match rawhdr::layout(&b) {
+        Some(lay) => lay.sig.string(&b, 273).map(|s| s == hex(&sha2::Sha256::digest(&b[lay.hdr_at..lay.payload_at]))).unwrap_or(false),
+        None => false,
+    }
+}
+
 fn observe(p: &Package) -> Value {
+    let hdt = guarded(|| header_digest_true(p)).unwrap_or(false);
     let r = guarded(|| {
         let mut ver = serde_json::Map::new();
         for k in gen_::KEYS {
             ver.insert(k.to_string(), json!(p.verify_signature(gen_::verifier(k)).is_ok()));
         }
-        json!({"digests_ok": p.verify_digests().is_ok(), "verifies": ver, "panicked": false})
+        json!({"digests_ok": p.verify_digests().is_ok(), "verifies": ver, "panicked": false, "hdr_digest_true": hdt})
     });
-    r.unwrap_or_else(|m| json!({"digests_ok": false, "verifies": {"rsa4096":false,"rsa3072p":false,"ed25519":false,"ecdsa":false}, "panicked": true, "msg": m}))
+    r.unwrap_or_else(|m| json!({"digests_ok": false, "verifies": {"rsa4096":false,"rsa3072p":false,"ed25519":false,"ecdsa":false}, "panicked": true, "hdr_digest_true": hdt, "msg": m}))
 }
 
 fn written(p: &Package) -> Vec<u8> {
@@ -49,11 +73,23 @@ pub fn run(args: &Args) {
         t.emit(json!({"event":"Start","ep_start":true,"walk":w,"obs":observe(&p)}));
         let (mut ht, mut pt) = (0u8, 0u8);
         for step in 0..(1 + rng.below(maxlen)) {
-            let op = *rng.pick(&["sign", "sign", "clear", "reparse", "tamper_header", "tamper_payload"]);
+            let op = *rng.pick(&["sign", "sign", "clear", "reparse", "tamper_header", "tamper_payload", "sign_fail"]);
             let key = *rng.pick(&gen_::KEYS);
             let r = guarded(|| -> Result<Package, String> {
                 match op {
                     "sign" => { let mut q = p.clone(); q.sign_with_timestamp(gen_::signer(key), 1_600_000_000u32).map_err(|e| e.to_string())?; Ok(q) }
+                    // a signing operation that fails part-way (a refusing signer; a protected key with the wrong passphrase):
+                    // the package it was attempted on is what the walk continues with
+                    "sign_fail" => {
+                        let mut q = p.clone();
+                        let res = if step % 2 == 0 { q.sign_with_timestamp(RefusingSigner, 1_600_000_000u32) } else {
+                            let (sec, _, _) = gen_::key_files("rsa3072p");
+                            let s = rpm::signature::pgp::Signer::load_from_asc_bytes(&std::fs::read(sec).map_err(|e| e.to_string())?).map_err(|e| e.to_string())?;
+                            q.sign_with_timestamp(s.with_key_passphrase("not the passphrase"), 1_600_000_000u32)
+                        };
+                        if res.is_ok() { return Err("skip: the failing signer did not fail".into()); }
+                        Ok(q)
+                    }
                     "clear" => { let mut q = p.clone(); q.clear_signatures().map_err(|e| e.to_string())?; Ok(q) }
                     "reparse" => Package::parse(&mut &written(&p)[..]).map_err(|e| e.to_string()),
                     "tamper_header" => {
